@@ -1,5 +1,8 @@
 // Replay of spec/Xsec.tla programs on the real CrossSection API (C11).
 //   mfdrive xsec <programs.ndjson> <out.ndjson> [--K=k] [--jitter=e] [--from=i]
+// --jitter=e displaces every input vertex pseudo-randomly by less than 10^-e (far below the operation's
+// epsilon, ~1e-11 here): C11 demands the same values at every point farther than epsilon from the input
+// edges, so the demanded pixel sets and areas (to 1e-9) are unchanged; only the `lattice` clause is dropped.
 // A program is {"K":k,"prog":[step...]}; a step is
 //   {"a":"Leaf","rule":"Positive"|"EvenOdd","cs":[[[X,Y]..]..]}   (doubled integer coordinates)
 //   {"a":"Bool","op":..,"x":i,"y":j,"sym":b} | {"a":"Batch","op":..,"xs":[..],"sym":b} | {"a":"Xf","g":..,"x":i}
@@ -138,8 +141,9 @@ struct XRunner {
         fail("pixels", step, {{"why", "a pixel is only partly covered"}, {"polys", PolysJson(P)}});
       const double a = objs[k].cs.Area();
       if (!(std::fabs(a - n) <= 1e-9 * std::max(1.0, n))) fail("area", step, {{"want", n}, {"got", a}, {"polys", PolysJson(P)}});
+      // (inputs displaced by --jitter are no longer lattice: the clause does not apply to them)
       for (auto& ring : P) {
-        bool bad = false;
+        bool bad = jitter > 0;
         for (size_t i = 0; i < ring.size() && !bad; i++) {
           const vec2 a0 = ring[i], b0 = ring[(i + 1) % ring.size()];
           if (a0.x != std::nearbyint(a0.x) || a0.y != std::nearbyint(a0.y)) {
@@ -157,9 +161,8 @@ struct XRunner {
       if (!std::isfinite(a)) fail("finite", step, {{"why", "non-finite Area"}});
     }
     RegularReport rr = Regularized(P);
-    if (rr.inexact)
-      inexact++;
-    else if (!rr.why.empty())
+    if (rr.inexact) inexact++;  // (then only the certain part of the predicate was decided)
+    if (!rr.why.empty())
       fail("regular", step, {{"why", rr.why}, {"where", rr.where}, {"polys", PolysJson(P)}});
     touches += rr.touches;
     // the copy taken at creation is the same value
